@@ -300,12 +300,23 @@ fn are_more_expressions(args: &[&str], index: usize) -> bool {
     (index < args.len() - 1) && args[index + 1] != ")"
 }
 
+/// A numeric user or group ID as the operand of -user or -group: decimal
+/// digits only (the integer parser would also take a leading '+').
+fn parse_id(operand: &str) -> Option<u32> {
+    operand
+        .bytes()
+        .all(|b| b.is_ascii_digit())
+        .then(|| operand.parse().ok())?
+}
+
 fn convert_arg_to_number(
     option_name: &str,
     value_as_string: &str,
 ) -> Result<usize, Box<dyn Error>> {
+    // (digits only: the integer parser would also take a leading '+')
+    let digits_only = value_as_string.bytes().all(|b| b.is_ascii_digit());
     match value_as_string.parse::<usize>() {
-        Ok(val) => Ok(val),
+        Ok(val) if digits_only => Ok(val),
         _ => Err(From::from(format!(
             "Expected a positive decimal integer argument to {option_name}, but got \
              `{value_as_string}'"
@@ -731,7 +742,7 @@ fn build_matcher_tree(
 
                 i += 1;
                 let matcher = UserMatcher::from_user_name(user)
-                    .or_else(|| Some(UserMatcher::from_uid(user.parse::<u32>().ok()?)))
+                    .or_else(|| Some(UserMatcher::from_uid(parse_id(user)?)))
                     .ok_or_else(|| format!("{user} is not the name of a known user"))?;
                 Some(matcher.into_box())
             }
@@ -760,7 +771,7 @@ fn build_matcher_tree(
 
                 i += 1;
                 let matcher = GroupMatcher::from_group_name(group)
-                    .or_else(|| Some(GroupMatcher::from_gid(group.parse::<u32>().ok()?)))
+                    .or_else(|| Some(GroupMatcher::from_gid(parse_id(group)?)))
                     .ok_or_else(|| format!("{group} is not the name of an existing group"))?;
                 Some(matcher.into_box())
             }
